@@ -99,6 +99,35 @@ def enumerated(rnd, ops, family, before=((), ("unroll",), ("validate",)), after=
     return out
 
 
+CHAIN_PROGRAMS = [
+    # two registers with idle qubits in the middle and qubits that are only measured / only behind a barrier: a removal after
+    # remove_idle_qubits makes further qubits idle, in a register whose bookkeeping was renumbered
+    'OPENQASM 3.0;\ninclude "stdgates.inc";\nqubit[3] a;\nqubit[4] b;\nbit[3] c;\nx a[1];\nx b[3];\nc[0] = measure a[0];\nc[1] = measure b[0];\nc[2] = measure b[2];\n',
+    'OPENQASM 3.0;\ninclude "stdgates.inc";\nqubit[5] q;\nqubit[3] r;\nbit[2] c;\nh q[0];\nbarrier q[1];\ncx q[0], q[4];\nbarrier r[2];\nx r[0];\nc[0] = measure q[4];\nbarrier q[0], q[4];\nc[1] = measure r[0];\n',
+    # the critical path runs through a qubit with a high index (renumbered by remove_idle_qubits) and through a multi-qubit barrier
+    'OPENQASM 3.0;\ninclude "stdgates.inc";\nqubit[6] q;\nbit[2] c;\nh q[5];\nx q[5];\nz q[5];\ns q[5];\nc[0] = measure q[5];\nh q[1];\nbarrier q[1], q[5];\nc[1] = measure q[1];\nreset q[3];\n',
+    'OPENQASM 2.0;\ninclude "qelib1.inc";\nqreg a[3];\nqreg b[4];\ncreg c[3];\nx a[1];\nh b[3];\nt b[3];\nbarrier b[2], b[3];\nmeasure a[0] -> c[0];\nmeasure b[0] -> c[1];\nmeasure b[2] -> c[2];\n',
+]
+
+
+def chains(rnd, family, lasts, firsts=("remove_idle_qubits",), mids=("remove_measurements", "remove_barriers", "reverse_qubit_order"),
+           prefixes=((), ("validate",), ("num_qubits",), ("unroll",), ("depth",))):
+    """first transformation, a second one that changes which qubits are used, then each of `lasts` (a transformation or a
+    tuple of queries), after each prefix of queries, on the chain programs: bookkeeping carried from one call to the next"""
+    out = []
+    for src in CHAIN_PROGRAMS:
+        for pre in prefixes:
+            for t1 in firsts:
+                for t2 in mids:
+                    for last in lasts:
+                        body = [(0, q) for q in pre] + [(0, t1, True), (0, t2, True)]
+                        for q in (last if isinstance(last, tuple) else (last,)):
+                            body.append((0, q, True) if q in modcorr.TRANSFORMS else (0, q))
+                        hist, nobs = hist_with_obs(rnd, body, 1)
+                        out.append(dict(src=src, hist=hist, nobs=nobs, family=family))
+    return out
+
+
 def conversion_histories(rnd, family):
     """to_qasm3() in the middle of a history: the version-3 module it returns holds the version-2 module's CURRENT
     program and is independent of it (transformations of either leave the other alone)"""
